@@ -339,6 +339,32 @@ def run(v, O):
         out.append((f'{text}: rejected', O.raises(lambda text=text: Quantity(1, text))))
     return out
 '''
+DOC_SRC = '''
+import csv, re
+def run(v, O):
+    from scinumtools.units.settings import UNIT_PREFIXES, UNIT_STANDARD
+    P = {k: p for k, p in UNIT_PREFIXES.items()}
+    U = {k: u for k, u in UNIT_STANDARD.items()}
+    out = []
+    rows = list(csv.DictReader(open('/repo/docs/source/_static/tables/prefixes.csv')))
+    out.append(('published prefix table lists the same symbols', O.same(sorted(r['Symbol'] for r in rows), sorted(P))))
+    for r in rows:
+        n = int(re.search(r'10\\^\\{(-?\\d+)\\}', r['Magnitude']).group(1))
+        if r['Symbol'] in P:
+            out.append((f"prefix {r['Symbol']} ({r['Name']}) = 10^{n} as published", O.eq(float(P[r['Symbol']].magnitude), 10.0 ** n, 1e-12)))
+            out.append((f"prefix {r['Symbol']}: conversion factor of {r['Symbol']}m", O.eq(Quantity(1, r['Symbol'] + 'm').value('m'), 10.0 ** n, 1e-12)))
+    rows = list(csv.DictReader(open('/repo/docs/source/_static/tables/unit_standard.csv')))
+    for r in rows:
+        sy = r['Symbol'].split(',')[0].strip()
+        if sy not in U or not r['Prefixes'] or 'all' in r['Prefixes']:
+            continue
+        doc = sorted(x.strip()[:-len(sy)] for x in r['Prefixes'].split(',') if x.strip().endswith(sy))
+        lib = sorted(U[sy].prefixes) if isinstance(U[sy].prefixes, (list, tuple)) else U[sy].prefixes
+        out.append((f'unit {sy}: admitted prefixes as published', O.same(lib, doc)))
+        if str(U[sy].definition) == r['Definition']:
+            pass
+    return out
+'''
 NUM_CASES = ['-2*m', '-2.5e-3*km', 'kg/(-4*s)', '-1*[c]2', '-2*-3*m', '1e3*g', '-0.5*cm2', '2.5*m/(4*s2)', '-3*J/(2*-6*mol)', '1e-3*kg*m2/s2', '0.5*[k_B]*K', '-1e2*%']
 NUM_BAD = ['-m', '2**m', '--2*m', '2*', '*m']
 
@@ -349,7 +375,8 @@ def run_task(task):
     if task['part'] == 'N':
         from vf.scen import Scenario
         sc = Scenario('numeric-factors', NUM_SRC, {}, consts={'cases': NUM_CASES, 'bad': NUM_BAD}, preamble='from scinumtools.units import Quantity\n' + unitkit.REF_SRC, what='signed and exponent-form numeric factors inside unit expressions (concrete)', samples=1)
-        return run_scenarios([sc], contextlib.nullcontext, timeout_ms=20000, seed=task['seed'])
+        doc = Scenario('published-tables', DOC_SRC, {}, consts={}, preamble='from scinumtools.units import Quantity\n', what='prefix table and admitted prefixes against the published CSV tables under docs/', samples=1)
+        return run_scenarios([sc, doc], contextlib.nullcontext, timeout_ms=20000, seed=task['seed'])
     if task['part'] == 'X':
         from vf import xh
         return xh.to_task_result('harness_xh/c03_fraction.py', 'harness_xh.c03_fraction', 'C03', timeout=40 if task['tier'] == 'quick' else 120, jobs=4)
